@@ -73,3 +73,7 @@ pub(crate) fn stub_crc_model(s: u32, b: &[u8]) -> u32 {
 pub(crate) fn stub_braid_model<const N: usize>(start: u32, data: &[u8]) -> u32 {
     model_fold(start, data)
 }
+
+// NOTE on replay: `cargo kani playback` runs the harness natively and does not apply `#[kani::stub]`.  Harness
+// assertions therefore never name a model function directly: expected values are written as calls to the stubbed
+// function itself (`crc32(..)`, `adler32(..)`), which is the model under CBMC and the real function under replay.
